@@ -1,5 +1,7 @@
 import ModVerif.AuditCmd
 import ModVerif.Props.C07
 import ModVerif.Tie.Note
+import ModVerif.Tie.FnNote
 #audit_module ModVerif.Props.C07
 #audit_module ModVerif.Tie.Note
+#audit_module ModVerif.Tie.FnNote
